@@ -4,6 +4,7 @@ import (
 	"flag"
 	"fmt"
 	"os"
+	"runtime/pprof"
 	"sort"
 	"strings"
 	"time"
@@ -38,7 +39,13 @@ func cmdVerify(args []string) {
 	jobs := fs.Int("jobs", 8, "parallel queries")
 	dump := fs.String("dump", "", "directory for failed queries / generated code")
 	verbose := fs.Bool("v", false, "verbose")
+	prof := fs.String("cpuprofile", "", "write cpu profile")
 	fs.Parse(args)
+	if *prof != "" {
+		f, _ := os.Create(*prof)
+		pprof.StartCPUProfile(f)
+		defer pprof.StopCPUProfile()
+	}
 	t0 := time.Now()
 	e := sym.NewEngine(sym.Config{RepoDir: *repo, VerifDir: *verif, DumpDir: *dump, Verbose: *verbose})
 	if err := e.Load(); err != nil {
@@ -69,7 +76,7 @@ func cmdVerify(args []string) {
 	}
 	t2 := time.Now()
 	e.Discharge(e.Obligs, sym.DischargeOpts{TimeoutS: *timeout, Jobs: *jobs, DumpDir: *dump, Models: true})
-	fmt.Printf("discharge: %.1fs\n", time.Since(t2).Seconds())
+	fmt.Printf("discharge: %.1fs (script building %.1fs)\n", time.Since(t2).Seconds(), float64(e.Stats["build-scripts-ms"])/1000)
 	cnt := map[string]int{}
 	for _, ob := range e.Obligs {
 		cnt[ob.Status]++
@@ -90,6 +97,9 @@ func cmdVerify(args []string) {
 	sort.Strings(ks)
 	for _, k := range ks {
 		fmt.Printf("%s: %d\n", k, cnt[k])
+	}
+	if *prof != "" {
+		pprof.StopCPUProfile()
 	}
 	if len(e.Errors) > 0 {
 		os.Exit(2)
